@@ -187,7 +187,7 @@ theorem c08_deep_step (n : Nat)
     (sf : Flags) (hsf : flagsPlain sf = true) (acc : List (Key × Node)) (hacc : plainTList acc = true)
     (hnl : c08_noListPD (nativeList acc) = true) (k : Key) (o : Node) (ho : c08_nnDoc o = true)
     (hd : o.depth < n) :
-    c08_LoopSpec acc (mergeStep (mergeF n) sf .dict acc (k, o))
+    c08_LoopSpec acc (mergeStep (mergeF n) sf .dict [] acc (k, o))
       (fun p => ∃ q m, p = k :: q ∧ c08_nodeAt o q m) (c08_keysNodupH o = true) := by
   obtain ⟨n', rfl⟩ : ∃ n', n = n' + 1 := ⟨n - 1, by omega⟩
   obtain ⟨kw, ekw, hkw, _⟩ := childKw_plain hsf (.inl rfl)
@@ -228,7 +228,7 @@ theorem c08_deep_step (n : Nat)
           have hdel : (replaceOtherFlags fo cf).del = none := by
             have := ((c08_nnFlags_iff fo).1 hfo).2.1
             simp [replaceOtherFlags, mergeSafe, this]
-          have hstep : mergeStep (mergeF (n' + 1)) sf .dict acc (k, .comp fo .dict []) =
+          have hstep : mergeStep (mergeF (n' + 1)) sf .dict [] acc (k, .comp fo .dict []) =
               .ok (aset k (adopt sf .dict (.comp (replaceOtherFlags fo cf) .dict [])) acc) := by
             simp [mergeStep, getChild, CompKind.isDictFam, hl, hm, Node.isComp, reqNewBelow, reqNewList,
               Node.flags, hdel, setChild, propagate, childKw, applyKwList]
@@ -285,7 +285,7 @@ theorem c08_deep_loop (n : Nat)
     (sf : Flags) (hsf : flagsPlain sf = true) :
     ∀ (ocs acc : List (Key × Node)), plainTList acc = true → c08_noListPD (nativeList acc) = true →
       c08_nnDocList ocs = true → depthList ocs < n →
-      c08_LoopSpec acc (mergeLoop (mergeF n) sf .dict acc ocs)
+      c08_LoopSpec acc (mergeLoop (mergeF n) sf .dict [] acc ocs)
         (fun p => ∃ k c q m, p = k :: q ∧ (k, c) ∈ ocs ∧ c08_nodeAt c q m)
         (keysNodup ocs = true ∧ c08_keysNodupHList ocs = true)
   | [], acc, hacc, hnl, _, _ => by
@@ -296,7 +296,7 @@ theorem c08_deep_loop (n : Nat)
     have hd' : o.depth < n ∧ depthList rest < n := by simp only [depthList] at hd; omega
     have hstep := c08_deep_step n IH sf hsf acc hacc hnl k o hocs'.1 hd'.1
     simp only [mergeLoop]
-    cases hs : mergeStep (mergeF n) sf .dict acc (k, o) with
+    cases hs : mergeStep (mergeF n) sf .dict [] acc (k, o) with
     | error e =>
       rw [hs] at hstep
       obtain ⟨p, rfl, hp⟩ := hstep
@@ -309,8 +309,8 @@ theorem c08_deep_loop (n : Nat)
       rw [hs] at hstep
       obtain ⟨h1, h2, h3⟩ := hstep
       have ih := c08_deep_loop n IH sf hsf rest acc1 h1 h2 hocs'.2 hd'.2
-      show c08_LoopSpec acc (mergeLoop (mergeF n) sf .dict acc1 rest) _ _
-      cases hl : mergeLoop (mergeF n) sf .dict acc1 rest with
+      show c08_LoopSpec acc (mergeLoop (mergeF n) sf .dict [] acc1 rest) _ _
+      cases hl : mergeLoop (mergeF n) sf .dict [] acc1 rest with
       | error e =>
         rw [hl] at ih
         obtain ⟨p, rfl, hp⟩ := ih
@@ -355,7 +355,7 @@ theorem c08_deep_main : ∀ (n : Nat) (sf : Flags) (scs : List (Key × Node)) (o
     have hloop := c08_deep_loop n ih sf hsf ocs scs hscs hnl hocs hd'
     rw [c08_mergeF_dict]
     simp only [compMerge, c08_eDel_doc ho, Bool.false_eq_true, if_false]
-    cases hl : mergeLoop (mergeF n) sf .dict scs ocs with
+    cases hl : mergeLoop (mergeF n) sf .dict [] scs ocs with
     | error e =>
       rw [hl] at hloop
       obtain ⟨p, rfl, hp⟩ := hloop
